@@ -27,6 +27,9 @@ for sid in sorted(os.listdir(SEEDED)):
     tmp = tempfile.mkdtemp(prefix="scoda_seed_", dir="/tmp")
     try:
         shutil.copytree("/repo/scoda", os.path.join(tmp, "scoda"))
+        for f in os.listdir("/repo"):
+            if os.path.isfile(os.path.join("/repo", f)):
+                shutil.copy(os.path.join("/repo", f), os.path.join(tmp, f))
         p = subprocess.run(["patch", "-p1", "-d", tmp, "-i", os.path.join(d, "patch.diff")], capture_output=True, text=True)
         if p.returncode != 0:
             print("PATCH FAILED", sid, p.stdout, p.stderr)
